@@ -115,3 +115,13 @@ func setCur(t *Task) { curTask = t }
 //
 //go:norace
 func Cur() *Task { return curTask }
+
+// Flags is a small set of booleans shared between tasks for rendezvous conditions; accessed only
+// through //go:norace functions so that the harness adds no happens-before edge.
+type Flags [64]bool
+
+//go:norace
+func (f *Flags) Set(i int) { f[i%64] = true }
+
+//go:norace
+func (f *Flags) Get(i int) bool { return f[i%64] }
